@@ -120,6 +120,18 @@ type vfProbeResult struct {
 func (s *vfSim) probe(side int, raw []byte, full bool) vfProbeResult {
 	a := s.getAssoc(side)
 	s.quiesce()
+	// Anything the write loop would send on its next wake-up anyway (pending data that the burst limit held
+	// back) is sent now, so that it is not mistaken for an effect of the probe packet.
+	for i := 0; i < 64; i++ {
+		st := vfDeepState(a, false)
+		a.lock.Lock()
+		a.awakeWriteLoop()
+		a.lock.Unlock()
+		s.quiesce()
+		if vfDiffState(st, vfDeepState(a, false)) == "" {
+			break
+		}
+	}
 	before := vfDeepState(a, full)
 	nBefore := a.stats.getNumPacketsReceived()
 	mark := s.net.seq.Load()
